@@ -3,7 +3,7 @@ from props import element_common as ec
 
 NAMESPACE = 'C14'
 LEAN_TARGETS = ['MxV.Props.C14']
-THEOREMS = ['copy_store_eq', 'copy_independent', 'children_rebuild']
+THEOREMS = ['copy_store_eq', 'copy_independent', 'children_rebuild', 'copy_isolated', 'copy_untouched']
 TRUSTED_BASE = ['Lean 4.33.0 kernel', 'axioms: propext, Quot.sound, Classical.choice only (audited per theorem)',
                 'translator extract/*.py (attribute / validator / template tables regenerated every run)',
                 'correspondence harness: real XMLElement trees vs the Lean models Element, Values, Serialize, Parser, Mfull through mxdriver',
